@@ -23,7 +23,7 @@ RULE = (
 ASSUMPTIONS = ["output directories exist", "clean backend (no tracked jobs), sources dated in the past"]
 
 
-QUICK_BUDGET = {"cases": 1440, "deadline_s": 170, "case_timeout_s": 60, "floors": {"touch_runs": 504, "edges_ordered": 1554, "status_rows": 1749, "contents_compared": 6000, "fresh_sources": 170, "wide_cases": 1}}
+QUICK_BUDGET = {"cases": 1440, "deadline_s": 170, "case_timeout_s": 60, "floors": {"touch_runs": 504, "edges_ordered": 1554, "status_rows": 1749, "contents_compared": 6000, "fresh_sources": 170, "wide_cases": 1, "full_speed_touches": 200}}
 THOROUGH_FACTOR = 17  # thorough = the same workload with 17x the cases (floors scale along)
 
 
@@ -134,7 +134,13 @@ def run_case(case):
         env = cli.env_for(proj.simdir, ("slurm",))
         if case.get("nofile"):
             res.mon("wide_cases")
-        r = cli.gwf(root, ["touch"] + case["patterns"], env, utime_delay=0.0 if case.get("nofile") else 0.005, nofile=case.get("nofile"), timeout=240 if case.get("nofile") else 60)
+        # half of the runs at full speed: consecutive touches then often get the SAME timestamp (one kernel clock tick),
+        # which is still "consistent with the dependency order"; the other half with a pause after every touch so that
+        # the order itself shows in the timestamps
+        no_delay = bool(case.get("nofile")) or (len(ts) + len(case["patterns"]) + len(case["ticks"])) % 2 == 0
+        if no_delay:
+            res.mon("full_speed_touches")
+        r = cli.gwf(root, ["touch"] + case["patterns"], env, utime_delay=0.0 if no_delay else 0.005, nofile=case.get("nofile"), timeout=240 if case.get("nofile") else 60)
         res.mon("touch_runs")
         ctx = {"patterns": case["patterns"], "cone": sorted(c), "deps": {k: sorted(v) for k, v in deps.items()}}
         if r.rc != 0:
